@@ -2624,6 +2624,27 @@ impl<'a> Elab<'a> {
                 Err(_) => self.unsupported("matches! arguments", m.span()),
             }
         }
+        // `format!("{}", e)` is `e.to_string()` by definition (`ToString` is implemented through `Display`); also `format!("{e}")`
+        if name == "format" {
+            let parser = syn::punctuated::Punctuated::<Expr, Token![,]>::parse_terminated;
+            if let Ok(args) = syn::parse::Parser::parse2(parser, m.mac.tokens.clone()) {
+                let args: Vec<Expr> = args.into_iter().collect();
+                if let Some(Expr::Lit(ExprLit { lit: Lit::Str(ls), .. })) = args.first() {
+                    let f = ls.value();
+                    let arg: Option<Expr> = if f == "{}" && args.len() == 2 {
+                        Some(args[1].clone())
+                    } else if args.len() == 1 && f.starts_with('{') && f.ends_with('}') && f.len() > 2 && f[1..f.len() - 1].chars().all(|c| c.is_alphanumeric() || c == '_') {
+                        syn::parse_str::<Expr>(&f[1..f.len() - 1]).ok()
+                    } else {
+                        None
+                    };
+                    if let Some(a) = arg {
+                        let call: Expr = parse_quote!((#a).to_string());
+                        return self.fold_expr(call);
+                    }
+                }
+            }
+        }
         if name == "format" && self.u.strlits {
             // the text of a formatted message is opaque
             return parse_quote!(vx_format());
